@@ -669,6 +669,10 @@ func genParserCases(focus string) func(r *rand.Rand, tier string, env *Env) []Ca
 					// entries in which the characters before the ending are characters of the key as well
 					content = "beta@@\ngrub\\b\naab\nx~~\n@\n~@~\nab\n"
 				}
+				if i%6 == 0 {
+					// … and entries in which backslashes (one, two, three) stand before the ending: the ending is an ending
+					content = "user\\@\nodd\\\\\\@\neven\\\\@\ntail\\~\nplain@\n\\@\n"
+				}
 				pairs := pick(r, []string{"@ ~", "~ @ @ x", "@ \"\"", "oo 00", "@ ~ ~ x", "a", "@ ~ x", " ", "@  ~\t~  y", "\u00a0@ ~", "@ x\v", "\v@ y\u00a0", "o \u2003", "@ X", "ab C", "\\b [\\s<>]", "~ Y @ Z"})
 				c.Ops = append(c.Ops, Op{"parse.replaceSuffixes", [][]byte{[]byte(content), []byte(pairs)}})
 			}
